@@ -17,7 +17,7 @@ def stmt_text(k: str, i: int, rng: random.Random, fancy: bool) -> str:
                           "%d ** 1" % i]) if fancy else str(i)
         return "uint16" + sp() + "C%d" % i + osp() + "=" + osp() + val
     if k == "kdef":         # the constant named K; its value is the (abstract) line it stands on
-        return "uint8" + sp() + "K" + osp() + "=" + osp() + str(i)
+        return "uint8" + sp() + "K" + osp() + "=" + osp() + (rng.choice([str(i), "'\\u%04x'" % i, '"\\U%08x"' % i]) if fancy else str(i))
     if k == "kuse":         # a constant whose initialiser reads K: value = 1000 * (line of the K it denotes) + own line
         return "uint16" + sp() + "U%d" % i + osp() + "=" + osp() + rng.choice(["K * 1000 + %d" % i, "%d + 1000 * K" % i] if fancy else ["K * 1000 + %d" % i])
     if k == "kprint":
